@@ -44,6 +44,9 @@ type Case struct {
 	Procs    int    `json:"procs,omitempty"`
 	Noise    []int  `json:"noise,omitempty"`
 	Rounds   int    `json:"rounds,omitempty"` // free mode: the program is executed this many times on fresh buses
+	// SharedOpts: one Once()/Async() option value is reused for every
+	// subscription of an execution instead of a fresh one per Subscribe call.
+	SharedOpts bool `json:"shared_opts,omitempty"`
 }
 
 type regKey struct {
@@ -104,6 +107,7 @@ func accepts(f string, id int) bool {
 }
 
 type world struct {
+	opts  *busmodel.OptSource // nil = fresh option values; shared = one value per kind for the whole case
 	c     *Case
 	bus   *eventbus.EventBus
 	h     *hist
@@ -159,10 +163,10 @@ func (w *world) execOp(task, idx int, op Op) {
 		h.mu.Unlock()
 		var so []eventbus.SubscribeOption
 		if op.Once {
-			so = append(so, eventbus.Once())
+			so = append(so, w.opts.Once())
 		}
 		if op.Async {
-			so = append(so, eventbus.Async())
+			so = append(so, w.opts.Async())
 		}
 		filter := func(id int) bool {
 			h.mu.Lock()
@@ -239,7 +243,7 @@ func RunB(t *testing.T, c *Case) (*vkit.Outcome, []int) {
 
 func runOnce(t *testing.T, c *Case) (*vkit.Outcome, []int) {
 	o := &vkit.Outcome{}
-	w := &world{c: c, h: &hist{regs: map[regKey]*regInfo{}, pubs: map[int]*pubRec{}}}
+	w := &world{c: c, opts: busmodel.NewOptSource(c.SharedOpts), h: &hist{regs: map[regKey]*regInfo{}, pubs: map[int]*pubRec{}}}
 	w.bus = eventbus.New(
 		eventbus.WithBeforePublishContext(func(context.Context, reflect.Type, any) { w.yield("before") }),
 		eventbus.WithAfterPublishContext(func(context.Context, reflect.Type, any) { w.yield("after") }),
@@ -447,6 +451,9 @@ func check(c *Case, w *world, o *vkit.Outcome) {
 			}
 			if nf == 1 && acc && !r.once && nh != 1 {
 				fail("%s: the filter accepted the event but the handler did not run", desc)
+			}
+			if nf == 1 && acc && r.once && nh != 1 && len(fired[r.key]) == 0 {
+				fail("%s: the filter of a Once registration accepted the event, the handler did not run for it, and it ran for no other publish of the case either: only a Once registration that has already fired may skip an accepted event", desc)
 			}
 			rm := removalsOf(r, nil, p)
 			in := r.subRet < p.call && !calledBefore(rm, p.ret)
